@@ -72,12 +72,12 @@ var props = map[string]propSpec{
 	"C05": {
 		QuickShards: 8, ThoroughShards: 16,
 		Fuzz:        []fuzzSpec{{"FuzzC05Parse", 90}},
-		Rule:        "rapid draws (i) literals from the documented grammar: sign, digit runs of 1..450 digits (thorough: occasionally 32k-70k digits or leading-zero runs of that length), ties and near-ties after the 34th/35th digit, the 38/39-digit accumulation cut-off, '.' at every position, '_' between digits, exponents with sign/leading zeros/separators steered to the subnormal, flush and overflow windows and to huge magnitudes, NaN/Inf/Infinity in random case; each is parsed under all 6 DefaultRoundingMode values by Parse and UnmarshalText (MustParse and fmt.Sscan under the default mode) and compared with an independent numeral evaluator + RoundX, incl. the ErrRange/Inf rule; (ii) invalid strings: random bytes, random strings over the literal alphabet, a fixed list of near-misses, and 1-2 byte mutations of valid literals, classified by an independent recogniser: must give ErrSyntax (MustParse panics). Non-trivial = literal with more than 35 significant digits, or in a clamp window, or with separators, or invalid; distinct = distinct string.",
+		Rule:        "rapid draws (i) literals from the documented grammar: sign, digit runs of 1..450 digits (thorough: occasionally 32k-70k digits or leading-zero runs of that length), ties and near-ties after the 34th/35th digit, the 38/39-digit accumulation cut-off, '.' at every position, '_' between digits, exponents with sign/leading zeros/separators steered to the subnormal, flush and overflow windows and to huge magnitudes, NaN/Inf/Infinity in random case; runs of up to 1.1 million zeros cancelled by the written exponent (moderate values whose digit count and exponent both exceed 16- and 20-bit counters); each is parsed under all 6 DefaultRoundingMode values by Parse, MustParse, UnmarshalText and fmt.Sscan and compared with an independent numeral evaluator + RoundX, incl. the ErrRange/Inf rule; (ii) invalid strings: random bytes, random strings over the literal alphabet, a fixed list of near-misses, and 1-2 byte mutations of valid literals, classified by an independent recogniser: must give ErrSyntax (MustParse panics). Non-trivial = literal with more than 35 significant digits, or in a clamp window, or with separators, or invalid; distinct = distinct string.",
 		Assumptions: append([]string{"signed NaN and doubled underscores are not settled by the statement and are excluded from both the valid and the invalid set (counted as unclaimed-form)", "below 1e-6177 both a signed zero and the directed-mode rounding are accepted"}, commonAssumptions...),
 	},
 	"C06": {
 		QuickShards: 8, ThoroughShards: 16,
-		Rule:        "rapid draws 128-bit patterns (uniform, structured finite with every coefficient length and trailing-zero run, values whose leading-digit exponent is around the -4/6 switch, zeros, specials); String, MarshalText, %v, Format/Append('g',-1), ('e',-1) and ('f',-1) are compared byte for byte with strings constructed from the decoded (digits, exponent) by the rule the statement gives, re-read by an independent numeral evaluator, and round-tripped through Parse, UnmarshalText and fmt.Sscan (Equal, same sign; class for NaN/Inf). 'f' at |exponent| >= 300 is sampled at 1/50. Non-trivial = at least two significant digits; distinct = distinct pattern.",
+		Rule:        "rapid draws 128-bit patterns (uniform, structured finite with every coefficient length and trailing-zero run, values whose leading-digit exponent is around the -4/6 switch, zeros, specials); String, MarshalText, %v, fmt.Sprint, Decimal.Append(nil or prefix, "v"), Format/Append('g'/'G',-1), ('e'/'E',-1) and ('f',-1) are compared byte for byte with strings constructed from the decoded (digits, exponent) by the rule the statement gives, re-read by an independent numeral evaluator, and round-tripped through Parse, UnmarshalText and fmt.Sscan (Equal, same sign; class for NaN/Inf). 'f' at |exponent| >= 300 is sampled at 1/50. Non-trivial = at least two significant digits; distinct = distinct pattern.",
 		Assumptions: commonAssumptions,
 	},
 	"C07": {
@@ -89,7 +89,7 @@ var props = map[string]propSpec{
 	"C13": {
 		QuickShards: 8, ThoroughShards: 16,
 		Fuzz:        []fuzzSpec{{"FuzzC13UnmarshalJSON", 60}},
-		Rule:        "rapid draws Decimals (all patterns, values around the -6/20 switch of the JSON form) for MarshalJSON: the output must match an RFC 8259 number recogniser, denote the value exactly (independent numeral evaluator), carry no superfluous digits, and round-trip directly and through encoding/json inside a struct, slice, map and pointer; NaN/Inf must give *json.UnsupportedValueError. For UnmarshalJSON: RFC 8259 numbers from a grammar (ties after the 34th digit, long digit strings, exponents in the clamp windows and beyond int16) must give the same Decimal as Parse (error when Parse reports ErrRange), directly and inside documents; null leaves the receiver untouched; JSON strings/bools/arrays/objects must be errors; arbitrary bytes and Go float syntax must not panic and, if accepted, must store what Parse gives. Non-trivial = exponent-form output or >= 20 digits (marshal), any number or non-number JSON value (unmarshal); distinct = distinct input.",
+		Rule:        "rapid draws Decimals (all patterns, values around the -6/20 switch of the JSON form) for MarshalJSON: the output must match an RFC 8259 number recogniser, denote the value exactly (independent numeral evaluator), carry no superfluous digits, and round-trip directly and through encoding/json inside a struct, slice, map and pointer; NaN/Inf must give *json.UnsupportedValueError. For UnmarshalJSON: RFC 8259 numbers from a grammar (ties after the 34th digit, long digit strings, exponents in the clamp windows and beyond int16), under a drawn DefaultRoundingMode, must give the same Decimal as Parse and as the independent literal evaluator (error when the value is out of range), directly and inside documents; null leaves the receiver untouched; JSON strings/bools/arrays/objects must be errors; arbitrary bytes and Go float syntax must not panic and, if accepted, must store what Parse gives. Non-trivial = exponent-form output or >= 20 digits (marshal), any number or non-number JSON value (unmarshal); distinct = distinct input.",
 		Assumptions: append([]string{"encoding/json is the reference for JSON validity of whole documents; byte strings that are not JSON values are outside the statement's 'non-numbers' and only the no-panic/no-wrong-value clauses apply"}, commonAssumptions...),
 	},
 	"C15": {
@@ -99,13 +99,13 @@ var props = map[string]propSpec{
 	},
 	"C19": {
 		QuickShards: 8, ThoroughShards: 16,
-		Rule:        "sub-check cohort: rapid draws an operation from a table of 56 entry points (arithmetic with and without mode, QuoRem, Pow, comparisons, Min/Max, sign operations, Canonical, rounding with random dp and mode, roots, the eight exp/log functions, Frexp/Ldexp, predicates, all float/integer/rational conversions, String/MarshalText/MarshalJSON/%v, Sprintf and Decimal.Append with random specs, Format/Append with random verb and precision, Decompose) and operands together with a second encoding of each operand's value (another cohort member, a zero with another exponent, NaN with another payload, Inf with other garbage bits); the operation is evaluated on (x,y), (x',y), (x,y'), (x',y') and all results must agree in class, sign, exact value (strings byte for byte, conversion results and ok flags identically, payload strings for invalid operations). Sub-check canonical: Equal/sign, idempotence, expected bits computed from the decoded parts (exponent closest to zero over the whole cohort; canonical NaN/Inf/zero), and Canonical(a)==Canonical(b) iff a Equal b. Non-trivial = the two encodings differ in bits; distinct = distinct argument tuple.",
+		Rule:        "sub-check cohort: rapid draws an operation from a table of 56 entry points (arithmetic with and without mode, QuoRem, Pow, comparisons, Min/Max, sign operations, Canonical, rounding with random dp and mode, roots, the eight exp/log functions, Frexp/Ldexp, predicates, all float/integer/rational conversions, String/MarshalText/MarshalJSON/%v, Sprintf and Decimal.Append with random specs, Format/Append with random verb and precision, Decompose) and operands together with a second encoding of each operand's value (another cohort member, a zero with another exponent, NaN with another payload, Inf with other garbage bits); the operation is evaluated on (x,y), (x',y), (x,y'), (x',y') under a drawn DefaultRoundingMode (half of the cases nearest-even, half one of the other five) and all results must agree in class, sign, exact value (strings byte for byte, conversion results and ok flags identically, payload strings for invalid operations). Sub-check canonical: Equal/sign, idempotence, expected bits computed from the decoded parts (exponent closest to zero over the whole cohort; canonical NaN/Inf/zero), and Canonical(a)==Canonical(b) iff a Equal b. Non-trivial = the two encodings differ in bits; distinct = distinct argument tuple.",
 		Assumptions: commonAssumptions,
 	},
 	"C20": {
 		QuickShards: 8, ThoroughShards: 16, Race: true,
 		Fuzz:        []fuzzSpec{{"FuzzC20Ops", 120}},
-		Rule:        "the harness is built with the race detector. Sub-check call: rapid draws one of 82 exported entry points (every method and function of the package, the fmt.Formatter/Scanner paths through Sprintf/Sscan/Sscanf, encoding paths) with arguments from the all-pattern Decimal generator and hostile scalars (ints 0, +-1, +-35, +-6111, +-6176, +-7000, +-100000, 2^15, 2^16, int and int32 extremes; precisions and widths up to 100001; rounding-mode bytes 0..255 incl. invalid ones; format specs from a grammar and from noise; strings and byte slices of random bytes, mutated literals, 70000-digit numerals, long '_' runs, JSON fragments; arbitrary Compose parts; big.Int/Rat/Float inputs) under a DefaultRoundingMode that may itself be invalid; asserted: no panic except the documented set, and those must panic; inputs (byte slices, big values), DefaultRoundingMode and a string returned earlier are unchanged; the same call twice gives identical bits; a watchdog reports any evaluation exceeding 120 s with its input. Sub-check concurrent: a generated list of 2..24 calls is executed by 2..16 goroutines in different orders for 1..3 rounds on shared argument values; every result must equal the sequential one and the race detector must stay silent (a detector abort is recovered from an in-flight case file). Non-trivial = call with a finite non-zero first operand, every concurrent list; distinct = distinct call or list.",
+		Rule:        "the harness is built with the race detector. Sub-check call: rapid draws one of 82 exported entry points (every method and function of the package, the fmt.Formatter/Scanner paths through Sprintf/Sscan/Sscanf, encoding paths) with arguments from the all-pattern Decimal generator and hostile scalars (ints 0, +-1, +-35, +-6111, +-6176, +-7000, +-100000, 2^15, 2^16, int and int32 extremes; precisions and widths up to 100001; rounding-mode bytes 0..255 incl. invalid ones; format specs from a grammar and from noise; strings and byte slices of random bytes, mutated literals, 70000-digit numerals, long '_' runs, JSON fragments; arbitrary Compose parts; big.Int/Rat/Float inputs) under a DefaultRoundingMode that may itself be invalid; asserted: no panic except the documented set, and those must panic; inputs (byte slices, big values), DefaultRoundingMode and a string returned earlier are unchanged; the same call twice gives identical bits; every []byte the package returns is overwritten by the harness before the call is repeated (a returned slice must not alias package state); a watchdog reports any evaluation exceeding 120 s with its input. Sub-check exponent-sweep: every entry point on operands at every exponent -6176..6111 (quick: dense within 70 of zero and of both ends, stride 13 elsewhere; thorough: all, marked exhaustive) x 4 coefficient shapes x 2 signs. Sub-check concurrent: a generated list of 2..24 calls is executed by 2..16 goroutines in different orders for 1..3 rounds on shared argument values; every result must equal the sequential one and the race detector must stay silent (a detector abort is recovered from an in-flight case file). Non-trivial = call with a finite non-zero first operand, every concurrent list; distinct = distinct call or list.",
 		Assumptions: append([]string{"the Go race detector (happens-before based) reports unsynchronised conflicting accesses that occur in the executed workload; interleavings are not enumerated", "precisions/widths above 100000 are outside the stated domain and are not generated for Format/Append"}, commonAssumptions...),
 	},
 	"C17": {
@@ -115,7 +115,7 @@ var props = map[string]propSpec{
 	},
 	"C16": {
 		QuickShards: 8, ThoroughShards: 16,
-		Rule:        "one sub-check per function (Exp, Exp2, Exp10, Expm1, Log, Log2, Log10, Log1p) under DefaultRoundingMode = nearest-even. rapid draws arguments stratified by decimal magnitude (whole range down to 1e-6176, -40..5, 1e-k scales k=1..70), integers and simple fractions in every cohort, threshold windows on the integer part (14149/14220 for Exp and Expm1; 6211, 20413..20517 and the word boundaries 64/128/192/255 for Exp2; 6111..6178 for Exp10), arguments far beyond the thresholds; for logarithms the full exponent range, 1 +/- j*10^-k (k = 1..34), exact powers of two and ten in every cohort, every two-leading-digit table slot, the tiny-argument windows of Log1p. Oracle: 512-bit big.Float reference (validated against a 483-row mpmath fixture and identities); the result must lie within one unit in the last place of the format at the true value (decided on integers in 1e-6 ulp units), be +Inf only when the true result is within one ulp of the largest Decimal, and be exact for the representable results the statement lists. The maximum observed error per function is reported in notes. Non-trivial = every in-domain non-zero argument; distinct = distinct (function, bits).",
+		Rule:        "one sub-check per function (Exp, Exp2, Exp10, Expm1, Log, Log2, Log10, Log1p); two thirds of the cases under DefaultRoundingMode = nearest-even (where the exactness clause applies), one third under one of the other five modes (one-ulp bound only); zero arguments of any exponent included. rapid draws arguments stratified by decimal magnitude (whole range down to 1e-6176, -40..5, 1e-k scales k=1..70), integers and simple fractions in every cohort, threshold windows on the integer part (14149/14220 for Exp and Expm1; 6211, 20413..20517 and the word boundaries 64/128/192/255 for Exp2; 6111..6178 for Exp10), arguments far beyond the thresholds; for logarithms the full exponent range, 1 +/- j*10^-k (k = 1..34), exact powers of two and ten in every cohort, every two-leading-digit table slot, the tiny-argument windows of Log1p. Oracle: 512-bit big.Float reference (validated against a 483-row mpmath fixture and identities); the result must lie within one unit in the last place of the format at the true value (decided on integers in 1e-6 ulp units), be +Inf only when the true result is within one ulp of the largest Decimal, and be exact for the representable results the statement lists. The maximum observed error per function is reported in notes. Non-trivial = every in-domain non-zero argument; distinct = distinct (function, bits).",
 		Assumptions: append([]string{"math/big.Float arithmetic at 512 bits (about 450 bits effective after argument reduction) is the reference; results within 1e-6 ulp of the one-ulp bound cannot occur in practice and are not treated specially"}, commonAssumptions...),
 	},
 	"C18": {
